@@ -305,7 +305,7 @@ func checkCmd(opts *RunOpts, args []string) int {
 	witnessCache := map[string]bool{}
 	var unsatCore []string
 	cexCache := map[string]*Cex{}
-	var cov_order, cov_rel, cov_neg, cov_q, cov_d, cov_f, cov_w map[string]any
+	var cov_order, cov_rel, cov_neg, cov_q, cov_d, cov_f, cov_w, cov_su map[string]any
 
 	for _, res := range run.Results {
 		if res.Trusted {
@@ -545,6 +545,15 @@ func checkCmd(opts *RunOpts, args []string) int {
 		}
 		cov_neg = cv
 	}
+	if run.SchemaUseRan && prop == "C19" {
+		_, vl, cv := boundedListVerdict(opts, prop, known, "ground.schemas.unchanged_by_use", "none.txt", run.SchemaMutated, run.SchemaCount,
+			"every shipped schema constant and state-group variable, dumped before and after a machine was created from each schema (Schema.Parse runs on it)",
+			"", "are changed by being used (a parsed schema must be a copy: shared group slices of the constants were edited in place)", nil)
+		if vl != "" {
+			violations = append(violations, vl)
+		}
+		cov_su = cv
+	}
 	if run.WRan {
 		_, vl, cv := boundedListVerdict(opts, prop, known, "bounded.waiting.histories", "none.txt", run.WFailing, run.WTotal,
 			"every history of up to 3 single-state Add/Remove mutations over A and the Multi state B, one subscription of every kind (When, WhenNot, WhenTime, WhenTicks, state context) taken at every position, on a fresh machine and after SetSchema",
@@ -642,6 +651,9 @@ func checkCmd(opts *RunOpts, args []string) int {
 	}
 	if cov_rel != nil {
 		cov["bounded_relations_standin"] = cov_rel
+	}
+	if cov_su != nil {
+		cov["schema_constants_unchanged_by_use"] = cov_su
 	}
 	if cov_w != nil {
 		cov["bounded_waiting_standin"] = cov_w
